@@ -258,6 +258,132 @@ pub proof fn lemma_ct_le_final(bk: spec_fn(nat) -> {{W}}, c: nat, n: nat, nw: {{
     }
 }
 
+// ---------------------------------------------------------------- `checks` configuration
+pub proof fn lemma_bit_of(v: u64, i: nat)
+    requires i < 64,
+    ensures bit_of(v, i) == ((v >> (i as u64)) & 1 == 1),
+{
+    lemma_u64_shr_is_div(v, i as u64);
+    let s = v >> (i as u64);
+    assert(s & 1 == s % 2) by (bit_vector);
+}
+
+/// a u64 all of whose bits at or above n are zero is below 2^n
+pub proof fn lemma_small(v: u64, n: nat)
+    requires n <= 64, forall|j: nat| n <= j < 64 ==> !#[trigger] bit_of(v, j),
+    ensures (v as nat) < pow2(n),
+    decreases 64 - n,
+{
+    lemma2_to64();
+    lemma2_to64_rest();
+    if n == 64 {
+    } else {
+        lemma_small(v, n + 1);
+        lemma_pow2_unfold(n + 1);
+        lemma_pow2_pos(n);
+        let pn = pow2(n);
+        assert(!bit_of(v, n));
+        assert((v as nat) / pn < 2) by (nonlinear_arith) requires (v as nat) < 2 * pn, pn > 0;
+        assert((v as nat) / pn == 0);
+        assert((v as nat) < pn) by (nonlinear_arith) requires (v as nat) / pn == 0, pn > 0;
+    }
+}
+
+/// (1 << n) - 1 does not underflow (n < 64)
+pub proof fn lemma_one_shl64(n: u64)
+    requires n < 64,
+    ensures (1u64 << n) >= 1,
+{
+    assert((1u64 << n) >= 1) by (bit_vector) requires n < 64;
+}
+
+/// bits of v & ((1 << n) - 1)
+pub proof fn lemma_mask64_bits(v: u64, n: nat, j: nat)
+    requires n < 64, j < 64,
+    ensures bit_of(v & (((1u64 << (n as u64)) - 1) as u64), j) == (j < n && bit_of(v, j)),
+{
+    let nn = n as u64;
+    let jj = j as u64;
+    lemma_one_shl64(nn);
+    let m: u64 = ((1u64 << nn) - 1) as u64;
+    lemma_bit_of(v & m, j);
+    lemma_bit_of(v, j);
+    assert((((v & (((1u64 << nn) - 1) as u64)) >> jj) & 1 == 1) == (jj < nn && ((v >> jj) & 1 == 1))) by (bit_vector) requires jj < 64, nn < 64;
+}
+
+/// the value handed to write_bits after the clean-up of the `checks` configuration
+pub proof fn lemma_ct_clean(le: bool, fb: nat, n: u64, r64: u64, v: u64)
+    requires
+        fb <= 64, fb <= n,
+        v == (if n < 64 { r64 & (((1u64 << n) - 1) as u64) } else { r64 }),
+        // when fewer than n bits come from the buffer, nothing is set above them
+        fb < n ==> forall|j: nat| fb <= j < 64 ==> !#[trigger] bit_of(r64, j),
+    ensures (v as nat) < pow2(fb), field(le, v, fb) =~= field(le, r64, fb),
+{
+    assert forall|j: nat| j < 64 implies #[trigger] bit_of(v, j) == (bit_of(r64, j) && (n >= 64 || j < n)) by {
+        if n < 64 { lemma_mask64_bits(r64, n as nat, j); }
+    }
+    assert forall|j: nat| fb <= j < 64 implies !#[trigger] bit_of(v, j) by {
+        assert(bit_of(v, j) == (bit_of(r64, j) && (n >= 64 || j < n)));
+    }
+    lemma_small(v, fb);
+    assert forall|i: int| 0 <= i < fb implies #[trigger] field(le, v, fb)[i] == field(le, r64, fb)[i] by {
+        let j: nat = if le { i as nat } else { (fb - 1 - i) as nat };
+        assert(bit_of(v, j) == (bit_of(r64, j) && (n >= 64 || j < n)));
+    }
+}
+
+/// BE: above the nb1 buffered bits the rotated buffer has nothing set
+pub proof fn lemma_ct_be_high_zero(b1: {{BB}}, nb1: nat, fb: nat, r64: u64, pos1: int, bk: spec_fn(nat) -> {{W}})
+    requires
+        nb1 < {{M}}, fb == nb1, fb <= 64, r64 == spec_rotl(b1, fb as u32) as u64,
+        forall|j: nat| j < {{M}} ==> #[trigger] wbit(b1 as nat, j) == (j >= {{M}} - nb1 && sbit(false, bk, pos1 + {{M}} - 1 - j)),
+    ensures forall|j: nat| fb <= j < 64 ==> !#[trigger] bit_of(r64, j),
+{
+    let r = spec_rotl(b1, fb as u32);
+    assert forall|j: nat| fb <= j < 64 implies !#[trigger] bit_of(r64, j) by {
+        lemma_cast64_bits(r, j);
+        if j < {{M}} {
+            axiom_rotl(b1, fb as u32, j);
+            lemma_fundamental_div_mod_converse((j + {{M}} - fb) as int, {{M}}, 1, (j - fb) as int);
+            assert(wbit(b1 as nat, (j - fb) as nat) == ((j - fb) >= {{M}} - nb1 && sbit(false, bk, pos1 + {{M}} - 1 - (j - fb))));
+        }
+    }
+}
+
+/// LE: above the nb1 buffered bits the buffer has nothing set
+pub proof fn lemma_ct_le_high_zero(b1: {{BB}}, nb1: nat, r64: u64, pos1: int, bk: spec_fn(nat) -> {{W}})
+    requires
+        nb1 < {{M}}, r64 == b1 as u64,
+        forall|j: nat| j < {{M}} ==> #[trigger] wbit(b1 as nat, j) == (j < nb1 && sbit(true, bk, pos1 + j)),
+    ensures forall|j: nat| nb1 <= j < 64 ==> !#[trigger] bit_of(r64, j),
+{
+    assert forall|j: nat| nb1 <= j < 64 implies !#[trigger] bit_of(r64, j) by {
+        lemma_cast64_bits(b1, j);
+        if j < {{M}} { assert(wbit(b1 as nat, j) == (j < nb1 && sbit(true, bk, pos1 + j))); }
+    }
+}
+
+/// a word, or its top n bits, as a clean write_bits argument
+pub proof fn lemma_word_clean(w: {{W}}, z: nat)
+    requires z < {{N}} || z == 0,
+    ensures (((w >> (z as {{W}})) as u64) as nat) < pow2(({{N}} - z) as nat), z == 0 ==> ((w as u64) as nat) < pow2({{N}}),
+{
+    let x: {{W}} = w >> (z as {{W}});
+    if z == 0 { let zero: {{W}} = 0; assert(w >> zero == w) by (bit_vector) requires zero == 0; }
+    assert forall|j: nat| {{N}} - z <= j < 64 implies !#[trigger] bit_of(x as u64, j) by {
+        lemma_up_bits(x, j);
+        if j < {{N}} { lemma_shr_bits_w(w, z, j); }
+    }
+    lemma_small(x as u64, ({{N}} - z) as nat);
+}
+
+pub proof fn lemma_pow2_64()
+    ensures pow2(64) == 0x1_0000_0000_0000_0000,
+{
+    lemma2_to64_rest();
+}
+
 // ---------------------------------------------------------------- BE
 impl<WR: WordRead> BufBitReader<BE, WR> {
     spec fn pos(&self) -> int { self.backend.cursor() * {{N}} - self.bits_in_buffer }
@@ -303,8 +429,9 @@ impl<WR: WordRead> BufBitReader<BE, WR> {
 //@REPLACE_RE <<Ord::min\(n, self\.bits_in_buffer as _\)>> => <<(if n <= self.bits_in_buffer as u64 { n } else { self.bits_in_buffer as u64 })>>
 //@PROLOGUE let ghost n0 = n; let ghost pos0 = self.pos(); let ghost V0 = bit_write.view(); let ghost bk = old(self).backend.data();
 //@PROOF after=<<n -= 64;>> proof { lemma_sbits_add(false, bk, pos0, 0, 64); }
+//@PROLOGUE[checks] proof { lemma_pow2_64(); }
 //@PROOF after=<<let from_buffer = >> let ghost pos1 = self.pos(); let ghost nb1 = self.bits_in_buffer as nat; let ghost b1 = self.buffer; let ghost V1 = bit_write.view(); let ghost n1 = n; proof { assert(V1 =~= V0 + sbits(false, bk, pos0, pos1 - pos0)); assert(from_buffer <= 64); }
-//@PROOF after=<<let mut self_buffer_u64: u64 = self.buffer.cast();>> let ghost r64 = self_buffer_u64;
+//@PROOF after=<<let mut self_buffer_u64: u64 = self.buffer.cast();>> let ghost r64 = self_buffer_u64; proof { if n < 64 { lemma_one_shl64(n); } }
 //@PROOF after=<<n -= from_buffer;>> proof { lemma_ct_be_from_buffer(bk, b1, nb1, pos1, from_buffer as nat, r64, self.buffer); lemma_sbits_add(false, bk, pos0, pos1 - pos0, from_buffer as int); }
 //@LOOP 1 invariant
 //@LOOP 1     self.backend.data() == old(self).backend.data(),
@@ -316,6 +443,9 @@ impl<WR: WordRead> BufBitReader<BE, WR> {
 //@LOOP 1 decreases n,
 //@LOOPEND 1 proof { let c = (self.backend.cursor() - 1) as nat; lemma_ct_word(false, bk, c, spec_to_be(bk(c)), spec_to_be(bk(c)) as u64); lemma_sbits_add(false, bk, pos0, (c * {{N}}) as int - pos0, {{N}}); }
 //@EPILOGUE proof { let c = (self.backend.cursor() - 1) as nat; lemma_ct_be_final(bk, c, n as nat, new_word, (new_word >> self.bits_in_buffer) as u64, self.buffer); lemma_sbits_add(false, bk, pos0, (c * {{N}}) as int - pos0, n as int); }
+//@REPLACE_RE[checks] [[\(match bit_write\.write_bits\(self_buffer_u64, from_buffer as usize\)]] => [[proof { if from_buffer < n { lemma_ct_be_high_zero(b1, nb1, from_buffer as nat, r64, pos1, bk); } lemma_ct_clean(false, from_buffer as nat, n, r64, self_buffer_u64); lemma_ct_be_from_buffer(bk, b1, nb1, pos1, from_buffer as nat, r64, (spec_rotl(b1, from_buffer as u32) >> (from_buffer as {{BB}})) << (from_buffer as {{BB}})); } (match bit_write.write_bits(self_buffer_u64, from_buffer as usize)]]
+//@REPLACE_RE[checks] [[\(match bit_write\.write_bits\( \(match self\.backend\.read_word\(\)]] => [[proof { lemma_word_clean(spec_to_be(bk(self.backend.cursor())), 0); } (match bit_write.write_bits( (match self.backend.read_word()]]
+//@REPLACE_RE[checks] [[\(match bit_write\.write_bits\(\(new_word >> self\.bits_in_buffer\)\.upcast\(\), n as usize\)]] => [[proof { lemma_word_clean(new_word, self.bits_in_buffer as nat); } (match bit_write.write_bits((new_word >> self.bits_in_buffer).upcast(), n as usize)]]
 //@END
 }
 
@@ -364,8 +494,9 @@ impl<WR: WordRead> BufBitReader<LE, WR> {
 //@REPLACE_RE <<Ord::min\(n, self\.bits_in_buffer as _\)>> => <<(if n <= self.bits_in_buffer as u64 { n } else { self.bits_in_buffer as u64 })>>
 //@PROLOGUE let ghost n0 = n; let ghost pos0 = self.pos(); let ghost V0 = bit_write.view(); let ghost bk = old(self).backend.data();
 //@PROOF after=<<n -= 64;>> proof { lemma_sbits_add(true, bk, pos0, 0, 64); }
+//@PROLOGUE[checks] proof { lemma_pow2_64(); }
 //@PROOF after=<<let from_buffer = >> let ghost pos1 = self.pos(); let ghost nb1 = self.bits_in_buffer as nat; let ghost b1 = self.buffer; let ghost V1 = bit_write.view(); let ghost n1 = n; proof { assert(V1 =~= V0 + sbits(true, bk, pos0, pos1 - pos0)); assert(from_buffer <= 64); }
-//@PROOF after=<<let mut self_buffer_u64: u64 = self.buffer.cast();>> let ghost r64 = self_buffer_u64; proof { lemma_ct_le_from_buffer(bk, b1, nb1, pos1, from_buffer as nat, r64, b1 >> (from_buffer as {{BB}})); }
+//@PROOF after=<<let mut self_buffer_u64: u64 = self.buffer.cast();>> let ghost r64 = self_buffer_u64; proof { if n < 64 { lemma_one_shl64(n); } lemma_ct_le_from_buffer(bk, b1, nb1, pos1, from_buffer as nat, r64, b1 >> (from_buffer as {{BB}})); }
 //@PROOF after=<<n -= from_buffer;>> proof { lemma_sbits_add(true, bk, pos0, pos1 - pos0, from_buffer as int); }
 //@LOOP 1 invariant
 //@LOOP 1     self.backend.data() == old(self).backend.data(),
@@ -376,7 +507,11 @@ impl<WR: WordRead> BufBitReader<LE, WR> {
 //@LOOP 1     bit_write.view() == V0 + sbits(true, bk, pos0, n0 - n),
 //@LOOP 1 decreases n,
 //@LOOPEND 1 proof { let c = (self.backend.cursor() - 1) as nat; lemma_ct_word(true, bk, c, spec_to_le(bk(c)), spec_to_le(bk(c)) as u64); lemma_sbits_add(true, bk, pos0, (c * {{N}}) as int - pos0, {{N}}); }
-//@EPILOGUE proof { let c = (self.backend.cursor() - 1) as nat; lemma_ct_le_final(bk, c, n as nat, new_word, new_word_u64, self.buffer); lemma_sbits_add(true, bk, pos0, (c * {{N}}) as int - pos0, n as int); }
+//@EPILOGUE proof { let c = (self.backend.cursor() - 1) as nat; lemma_ct_le_final(bk, c, n as nat, new_word, new_word as u64, self.buffer); lemma_sbits_add(true, bk, pos0, (c * {{N}}) as int - pos0, n as int); }
+//@REPLACE_RE[checks] [[\(match bit_write\.write_bits\(self_buffer_u64, from_buffer as usize\)]] => [[proof { lemma_ct_le_high_zero(b1, nb1, r64, pos1, bk); lemma_ct_clean(true, from_buffer as nat, n, r64, self_buffer_u64); } (match bit_write.write_bits(self_buffer_u64, from_buffer as usize)]]
+//@REPLACE_RE[checks] [[\(match bit_write\.write_bits\( \(match self\.backend\.read_word\(\)]] => [[proof { lemma_word_clean(spec_to_le(bk(self.backend.cursor())), 0); } (match bit_write.write_bits( (match self.backend.read_word()]]
+//@PROOF[checks] after=<<let mut new_word_u64: u64 = new_word.upcast();>> let ghost nw64 = new_word_u64; proof { if n < 64 { lemma_one_shl64(n); } }
+//@REPLACE_RE[checks] [[\(match bit_write\.write_bits\(new_word_u64, n as usize\)]] => [[proof { lemma_word_clean(new_word, 0); assert forall|j: nat| {{N}} <= j < 64 implies !#[trigger] bit_of(nw64, j) by { lemma_up_bits(new_word, j); } lemma_ct_clean(true, n as nat, n, nw64, new_word_u64); } (match bit_write.write_bits(new_word_u64, n as usize)]]
 //@END
 }
 
